@@ -436,11 +436,13 @@ pub fn run(ctx: &Ctx) -> Report {
     let n_big = big_cases.len() as u64;
     let mut acc2 = crate::props::sweep(big_cases.into_par_iter(), judge);
     acc2.nontrivial += n_big;
-    let acc = acc1.merge(acc2).merge(acc_len);
+    let mut acc = acc1.merge(acc2).merge(acc_len);
+    // thread teardown: the same push / pull programs from a thread-local destructor (child process)
+    crate::teardown::judge(P, "tcp", &mut acc);
     Report {
         acc,
         exhaustive: true,
-        rule: format!("(each split into 2..=4 chunks also with the process clock - the harness' own clock_gettime - jumping 1 s / 7 s / 61 min / 50 days between the chunks) all sequences of <= 3 frames with lengths from {{0,1,2,3,5}} (distinct counter contents) whose stream is <= {max_stream} bytes x every chunking (all 2^(n-1) split patterns) x pull schedules (per-chunk choice of none / one pull / pull until None then once more: exhaustive up to 5 chunks, 5 patterns above); plus frames of 65535, 65534, 256, 255, 0 bytes split around the length prefix and the frame end; more than 2^32 bytes through one long-lived buffer in frames of 65535 / 1200 bytes, 2*10^7 frames of 37 and of 0 bytes; every frame length 0..=65535 (whole between two small frames; the bare prefix first; split inside the prefix and mid-payload); payloads that are STUN messages or carry the magic cookie at every offset 0..=8 (frames of 4..40 bytes, with following frames; one piece, byte by byte, every two-way split); a ~450 KB stream of 250 frames (lengths from 14 size classes, 0..40000) pushed in chunks of 3 / 97 / 1460 / 4096 / 16384 / 65536 / 100000 bytes under 4 pull policies; evaluations = push/pull calls, distinct_nontrivial = operation sequences"),
+        rule: format!("(thread teardown probe: 8 chunkings of four frames pushed and pulled in the body of a thread and again from a thread-local destructor at its exit, in a child process) (each split into 2..=4 chunks also with the process clock - the harness' own clock_gettime - jumping 1 s / 7 s / 61 min / 50 days between the chunks) all sequences of <= 3 frames with lengths from {{0,1,2,3,5}} (distinct counter contents) whose stream is <= {max_stream} bytes x every chunking (all 2^(n-1) split patterns) x pull schedules (per-chunk choice of none / one pull / pull until None then once more: exhaustive up to 5 chunks, 5 patterns above); plus frames of 65535, 65534, 256, 255, 0 bytes split around the length prefix and the frame end; more than 2^32 bytes through one long-lived buffer in frames of 65535 / 1200 bytes, 2*10^7 frames of 37 and of 0 bytes; every frame length 0..=65535 (whole between two small frames; the bare prefix first; split inside the prefix and mid-payload); payloads that are STUN messages or carry the magic cookie at every offset 0..=8 (frames of 4..40 bytes, with following frames; one piece, byte by byte, every two-way split); a ~450 KB stream of 250 frames (lengths from 14 size classes, 0..40000) pushed in chunks of 3 / 97 / 1460 / 4096 / 16384 / 65536 / 100000 bytes under 4 pull policies; evaluations = push/pull calls, distinct_nontrivial = operation sequences"),
         bounds: json!({"frame_sequences": n_streams, "max_stream_bytes": max_stream, "dedup": "none (TcpBuffer's Debug hides its contents)"}),
         assumptions: vec![],
         ..Default::default()
